@@ -15,12 +15,15 @@ export GOFLAGS=-mod=mod GOPROXY=off GOSUMDB=off GOTOOLCHAIN=local VERIF_NO_REPLA
 export VERIF REPO BASE
 WORK=$(mktemp -d "$BASE/selftest-XXXXXX")
 trap 'rm -rf "$WORK"' EXIT
+# one snapshot of the tree under test at start, so that later edits of it do not leak into the run
+mkdir -p "$WORK/base"; rsync -a --exclude .git "$REPO"/ "$WORK/base"/
+SNAP="$WORK/base"; export SNAP
 one() {
   meta="$1"; P="$2"
   patch="${meta%.json}.patch"
   name=$(basename "$patch")
   S=$(mktemp -d "$WORK/m-XXXXXX")
-  rsync -a --exclude .git "$REPO"/ "$S"/
+  rsync -a "$SNAP"/ "$S"/
   if ! (cd "$S" && patch -p1 -s --no-backup-if-mismatch < "$patch" >/dev/null 2>&1); then
     echo "SELFTEST skipped (patch does not apply): $name"; rm -rf "$S"; return 0
   fi
